@@ -225,6 +225,7 @@ def cmdTags : String :=
 def step (ts : List String) : String :=
   match ts with
   | ["tags"] => cmdTags
+  | ["locate", d, a, ia, ic] => match locateAdasFile (pB d) (pB a) (pB ia) (pB ic) with | some p => p.code | none => "none"
   | "dispatch" :: keys => " ".intercalate (keys.map fun k => k ++ "=" ++ ",".intercalate (installFilesTargets k))
   | "adf2x" :: r => cmd2x r
   | "adf15" :: r => cmd15 r
